@@ -509,9 +509,13 @@ fn subst(ty: &Ty, args: &[Ty], prog: &Program) -> Ty {
                 .expect("argument of a Config-bounded parameter implements Config"),
             other => panic!("Assoc of non-named argument {other:?}"),
         },
-        Ty::Prim(_) | Ty::CowStr | Ty::CowBytes | Ty::NonZero(_) | Ty::Duration | Ty::BitVec(..) | Ty::Order(_) => {
-            ty.clone()
-        }
+        Ty::Prim(_)
+        | Ty::CowStr
+        | Ty::CowBytes
+        | Ty::NonZero(_)
+        | Ty::Duration
+        | Ty::BitVec(..)
+        | Ty::Order(_) => ty.clone(),
         // a closed BitVec<store, order> is the same Rust type however it was written
         Ty::Cow(t) => Ty::Cow(s(t)),
         Ty::BitVecG(a, b) => match (*s(a), *s(b)) {
